@@ -49,11 +49,31 @@ PROPS = {
              "Options().NewPath / NewRDFEntry / MkValue, proofs verified with the keys and values handed out, merklizer restored from bytes with the same hasher; every case non-trivial; distinct = distinct (op,input) hashes",
              shards=(8, 16), n=(15, 300),
              trusted=["the alternative hashers are defined twice (harness/common.go and lean/Gsp/Model/Hasher.lean) and cross-checked by the preflight"]),
+    "C13": P("cases = generated merklized documents (all value kinds: big integers incl. negatives and range boundaries, bool, strings incl. unicode/long, times with offsets and nanoseconds) under Poseidon, a salted and a "
+             "small-prime hasher; MarshalBinary (twice, sampling map order) -> MerklizerFromBytes with no tree / a matching pre-filled tree / a non-matching tree; restored root, entry set, source, safe mode and, "
+             "for member and non-member paths, raw value, datatype, value kind, proof existence and verification compared with the original; every entry round-tripped on its own; non-trivial = every case; distinct = distinct (op,input,config) hashes",
+             shards=(8, 16), n=(12, 200),
+             trusted=["encoding/gob byte layer (token-level model only)", "json-gold compaction for RawValue"]),
+    "C15": P("cases = generated documents with 1-3 undefined properties (plain values, objects, arrays) injected at top level, in nested nodes and in array members; merklized in default mode, explicit safe mode and "
+             "explicit unsafe mode; unsafe root compared with the real and the model root of the document without them; non-trivial = at least one undefined property; distinct = distinct (op,input) hashes",
+             shards=(8, 16), n=(12, 200),
+             trusted=["json-gold decides what 'does not expand to an absolute IRI' means and performs the dropping; the repository contributes the default and the option plumbing"]),
 }
 
 NOT_APPLICABLE = {}
 
 MANIFEST_TEXT = {
+    "C13": dict(
+        text="Lean theorems over a token-level codec model (Gsp.Codec): an entry decodes to itself whatever follows (entry_roundtrip, all value kinds incl. negative big integers); the merklizer image decodes to the same "
+             "source/compacted/root/safe-mode/entries and the tree is rebuilt from exactly the stored entries (mz_roundtrip, entries_roundtrip); a tree rebuilt in another insertion order has the same content "
+             "(restored_same_content); a caller-provided tree is accepted only if its root is the recorded one and is then used as is (provided_tree_only_if_root); a negative or oversized entry count is an error (count_guard). "
+             "Tie: real MarshalBinary/MerklizerFromBytes/UnmarshalBinary; the restored merklizer's observation must equal the model's merklization of the same dataset and the original's observation path by path.",
+        note="gob's byte layer is not modelled. Root equality of the rebuilt tree rests on insertion-order independence of the tree shape (stated, covered by the correspondence; content equality is proved)."),
+    "C15": dict(
+        text="Lean theorems (Gsp.Props.C15 over Gsp.Safe): the default mode is safe and the last explicit option wins (default_safe, options_last_wins); in safe mode a document with an undefined property is an error, so success "
+             "implies nothing was dropped (safe_rejects_undefined, safe_success_covers); unsafe mode equals the safe merklization of the stripped document (unsafe_equals_stripped). Tie: real MerklizeJSONLD in the three "
+             "configurations on documents with injected undefined properties vs the model fed with the stripped dataset; direct predicates: safe => error, unsafe => root of the stripped document.",
+        note="PARTIAL by nature: the decision which properties are undefined and their removal are json-gold's (third party); Lean proves the specification side and the repository's plumbing, the library is compared."),
     "C10": dict(
         text="Lean theorems (Gsp.Props.C10): valueToHash h dt raw equals the stored leaf value convert dt lit >>= enc h for every natural rendering of one value: identical strings (standalone_eq_leaf_string), "
              "any two spellings denoting the same integer incl. float64 canonical spellings (standalone_eq_leaf_int), JSON booleans and 0/1 (standalone_eq_leaf_bool, standalone_bool_01), doubles under idempotent "
